@@ -97,6 +97,12 @@ func (o rop) String() string {
 	case 'Z':
 		return fmt.Sprintf("Sleep(%dus)", o.N)
 	case 'C':
+		if o.Aux == -1 {
+			return "SetCache(nil: suspend)"
+		}
+		if o.Aux == -2 {
+			return "SetCache(re-attach the suspended cache)"
+		}
 		return fmt.Sprintf("SetCache(kind%d,cap%d)", o.Aux, o.N)
 	}
 	return "?"
@@ -113,6 +119,10 @@ type histOpts struct {
 // nextOp draws the next operation given the model state.
 func nextOp(rng *rand.Rand, m *rmodel, o histOpts, recent []int) rop {
 	f := m.f
+	if o.caches && rng.Intn(9) == 0 {
+		// cache histories change the cache often: fresh, detached, re-attached
+		return rop{Kind: 'C', Aux: rng.Intn(8), N: 1 + rng.Intn(6)}
+	}
 	x := rng.Intn(100)
 	switch {
 	case x < 30:
